@@ -63,6 +63,8 @@ type shardEvidence struct {
 	Extra        map[string]any `json:"extra,omitempty"`
 	WallS        float64        `json:"wall_s"`
 	Failed       bool           `json:"failed"`
+	// enumerations: cases that are distinct by construction and counted, not hashed
+	BulkNonTrivial int `json:"bulk_nontrivial"`
 }
 
 // Recorder accumulates evidence of one test function in one shard.
@@ -170,6 +172,18 @@ func trimSample(c any) any {
 	var v any
 	json.Unmarshal(b, &v)
 	return v
+}
+
+// Bulk records an enumeration: evals cases executed, nt of them non-trivial and distinct by construction.
+func (r *Recorder) Bulk(evals, nt int, sample any) {
+	r.mu.Lock()
+	defer r.mu.Unlock()
+	r.ev.Evaluations += evals
+	r.ev.Requested += evals
+	r.ev.BulkNonTrivial += nt
+	if sample != nil && len(r.ev.Samples) < 8 {
+		r.ev.Samples = append(r.ev.Samples, sample)
+	}
 }
 
 func (r *Recorder) SetExtra(k string, v any) {
